@@ -1,7 +1,9 @@
 """C14 (REDItools half): site placement per transcript and threshold semantics."""
 from moPepGen.parser.REDItoolsParser import REDItoolsRecord
-from mpgverif.harness.annobuild import anno_one_gene, exons_valid, tx_index_oracle
-from mpgverif.hlib import OK, SKIP, cond
+from moPepGen import gtf
+from mpgverif.harness.annobuild import (anno_one_gene, exons_valid, gene_model, tx_index_oracle,
+                                        tx_model)
+from mpgverif.hlib import OK, SKIP, concretize, cond
 
 USE_SHIM = True
 USE_TOKENS = True
@@ -81,16 +83,80 @@ def _thresholds(ca, cc, cg, ct, alt_i, min_alt, f_i, min_rna, min_dna, gcov_kind
     return OK if (got == [('A', alt)]) == want and (got == [] or got == [('A', alt)]) else -10
 
 
-@cond('C14', bounds='reference and ALT read counts 0..12 (other bases 0), unbounded coverage thresholds, '
-      'frequency cut-off in {0, 0.1, 0.25, 0.5, 1.0} compared against the exact rational test (one float '
-      'division in the implementation), DNA coverage -1 / missing / value', encodes=ENC, codes=CODES,
-      tokens=True, timeout=600)
-def c14_reditools_thresholds(cr: int, calt: int, min_alt: int, f_i: int, min_rna: int, min_dna: int,
-                             gcov_kind: int, gcov: int) -> int:
+CNT = list(range(0, 8))
+
+
+@cond('C14', bounds='coverage thresholds: reference and ALT read counts 0..7 (each value its own path because the '
+      'implementation divides by the total count), UNBOUNDED symbolic thresholds (min ALT reads, min RNA '
+      'coverage, min DNA coverage with DNA coverage -1 / missing / value), frequency cut-off 0', encodes=ENC,
+      codes=CODES, tokens=True, timeout=600)
+def c14_reditools_coverage(cr_i: int, calt_i: int, min_alt: int, min_rna: int, min_dna: int,
+                           gcov_kind: int, gcov: int) -> int:
     """
-    pre: 0 <= cr <= 12 and 0 <= calt <= 12
-    pre: 0 <= f_i <= 4 and 0 <= gcov_kind <= 2
+    pre: 0 <= cr_i <= 7 and 0 <= calt_i <= 7
+    pre: 0 <= gcov_kind <= 2
     pre: 0 <= gcov
     post: _ >= 0
     """
-    return _thresholds(cr, 0, calt, 0, 2, min_alt, f_i, min_rna, min_dna, gcov_kind, gcov)
+    return _thresholds(concretize(cr_i, 0, 7), 0, concretize(calt_i, 0, 7), 0, 2, min_alt, 0, min_rna, min_dna, gcov_kind, gcov)
+
+
+@cond('C14', bounds='frequency cut-off in {0, 0.1, 0.25, 0.5, 1.0} against the exact rational test: reference and '
+      'ALT read counts 0..7, coverage thresholds neutral', encodes=ENC, codes=CODES, tokens=True, timeout=400)
+def c14_reditools_frequency(cr_i: int, calt_i: int, f_i: int) -> int:
+    """
+    pre: 0 <= cr_i <= 7 and 0 <= calt_i <= 7
+    pre: 0 <= f_i <= 4
+    post: _ >= 0
+    """
+    return _thresholds(concretize(cr_i, 0, 7), 0, concretize(calt_i, 0, 7), 0, 2, 0, f_i, 0, 0, 0, 0)
+
+
+def _two_genes(g1s, g1e, plus1, g2s, g2e, plus2, x0, x1, y0, y1, pos1):
+    """two (possibly overlapping) genes, each with a 2-exon transcript listed for the site"""
+    s1, s2 = (1 if plus1 else -1), (1 if plus2 else -1)
+    ex1 = [(g1s, x0), (x1, g1e)]
+    ex2 = [(g2s, y0), (y1, g2e)]
+    if not (exons_valid(g1s, g1e, ex1) and exons_valid(g2s, g2e, ex2)):
+        return SKIP
+    g = pos1 - 1
+    if not (g1s <= g < g1e and g2s <= g < g2e):
+        return SKIP
+    anno = gtf.GenomicAnnotation(
+        genes={'G1': gene_model('G1', 'chr1', g1s, g1e, s1, ['T1']),
+               'G2': gene_model('G2', 'chr1', g2s, g2e, s2, ['T2'])},
+        transcripts={'T1': tx_model('T1', 'G1', 'chr1', s1, ex1), 'T2': tx_model('T2', 'G2', 'chr1', s2, ex2)},
+        source='GENCODE')
+    rec = REDItoolsRecord(region='chr1', position=pos1, reference='A', strand=1, coverage_q=10,
+                          mean_quality=30.0, base_count=[0, 0, 10, 0], all_subs=[('A', 'G')], frequency=0.5,
+                          g_coverage_q=-1, transcript_id=[('T1', 'transcript'), ('T2', 'transcript')])
+    recs = rec.convert_to_variant_records(anno, 1, 0.0, 1, 1)
+    want = []
+    for tx, gid, gs, ge, st, ex in (('T1', 'G1', g1s, g1e, s1, ex1), ('T2', 'G2', g2s, g2e, s2, ex2)):
+        if tx_index_oracle(ex, st, g) is not None:
+            want.append((tx, gid, g - gs if st == 1 else ge - 1 - g, st))
+    if len(recs) != len(want):
+        return -2
+    for r, (tx, gid, k, st) in zip(recs, want):
+        if r.attrs['TRANSCRIPT_ID'] != tx or r.location.seqname != gid:
+            return -6                         # record attributed to the wrong gene / transcript
+        if r.location.start != k or r.location.end != k + 1:
+            return -3
+        if r.attrs['STRAND'] != st:
+            return -7
+    return OK
+
+
+CODES[-6] = 'record attributed to the wrong gene or transcript'
+CODES[-7] = 'STRAND attribute is not the strand of the transcript\'s own gene'
+
+
+@cond('C14', bounds='REDItools site listed for transcripts of TWO genes (any overlap, any strands, 2 exons each), '
+      'coordinates < 59000', encodes=ENC, codes=CODES, tokens=True, timeout=400)
+def c14_reditools_two_genes(g1s: int, g1e: int, plus1: bool, g2s: int, g2e: int, plus2: bool, x0: int,
+                            x1: int, y0: int, y1: int, pos1: int) -> int:
+    """
+    pre: 0 <= g1s and g1e < 59000 and 0 <= g2s and g2e < 59000
+    post: _ >= 0
+    """
+    return _two_genes(g1s, g1e, plus1, g2s, g2e, plus2, x0, x1, y0, y1, pos1)
